@@ -303,6 +303,15 @@ def pureLine (ws : List String) : Option String :=
     | _, _, _ => none
   | _ => none
 
+/-! ### constructor:  `ctor <step> <n>`  = NewWheel(step, n);  observation `P` (panic) or `ok` -/
+def ctorLine (ws : List String) : Option String :=
+  match ws with
+  | [st, n] =>
+    match parseInt? st, parseInt? n with
+    | some st, some n => some (if newWheelPanics st n then "P" else "ok")
+    | _, _ => none
+  | _ => none
+
 def monitor (_ : Unit) (line : String) : Unit × String :=
   if line.isEmpty then ((), "") else
   let (script, impl) := match line.splitOn "\t" with
@@ -319,6 +328,10 @@ def monitor (_ : Unit) (line : String) : Unit × String :=
     match pureLine ws with
     | some m => ((), if m = impl then "ok" else "reject expected " ++ m)
     | none => ((), "reject bad-script")
+  | "ctor" :: ws =>
+    match ctorLine ws with
+    | some m => ((), if m = impl then "ok" else "reject expected " ++ m)
+    | none => ((), "reject bad-script")
   | _ => ((), "reject bad-script")
 
 def runOnly (_ : Unit) (line : String) : Unit × String :=
@@ -326,6 +339,7 @@ def runOnly (_ : Unit) (line : String) : Unit × String :=
   | "race" :: ws => ((), (raceLine ws).getD "bad-script")
   | "time" :: ws => ((), timeRun ws)
   | "pure" :: ws => ((), (pureLine ws).getD "bad-script")
+  | "ctor" :: ws => ((), (ctorLine ws).getD "bad-script")
   | [] => ((), "")
   | _ => ((), "bad-script")
 
